@@ -241,7 +241,7 @@ theorem closedW_mono (h : SA n v) (h0 : v 0 = 0) {x c : Nat} (hc : c < 2 ^ n) (h
 
 theorem closedW_le_grand (h : SA n v) (h0 : v 0 = 0) {c : Nat} (hc : c < 2 ^ n) :
     closedW v c ≤ closedW v (grand n) :=
-  closedW_mono h h0 (grand_lt n) (sub_grand hc)
+  closedW_mono h h0 (grand_lt n) (sub_grand_mask hc)
 
 /-- `w(N) = 0 ⇒ w ≡ 0`: the additive case (`v c = Σ_{i∈c} v{i}` for every coalition) -/
 theorem closedW_zero_of_grand_zero (h : SA n v) (h0 : v 0 = 0) (hg : closedW v (grand n) = 0) :
